@@ -2,6 +2,8 @@
 use super::*;
 include!("common.inc");
 
+pub(crate) fn peek(t: &SystemEventAccessTracker) -> (bool, Entity, usize) { (t.currently_reacting, t.data_entity, t.prepared.len()) }
+
 type Elem = (SystemCommand, Entity);
 fn same(a: &Elem, b: &Elem) -> bool { a == b }
 #[allow(dead_code)] fn dbg_list(l: &[Elem]) -> Vec<(u32, u32)> { l.iter().map(|(s, d)| (s.0.index(), d.index())).collect() }
